@@ -43,7 +43,10 @@ pub trait DynamicSystemData: Sized {
     type Accessor: Accessor;
     spec fn spec_dyn_setup_trace(accessor: &Self::Accessor) -> Seq<int>;
     fn setup(accessor: &Self::Accessor, world: &mut World)
-        ensures final(world).setup_log() == old(world).setup_log() + Self::spec_dyn_setup_trace(accessor), final(world).dispose_log() == old(world).dispose_log();
+//@if hooks
+        ensures final(world).setup_log() == old(world).setup_log() + Self::spec_dyn_setup_trace(accessor), final(world).dispose_log() == old(world).dispose_log()
+//@endif
+    ;
     fn fetch(access: &Self::Accessor, world: &World) -> (r: Self);
 }
 pub enum AccessorCow<'b, A> { Ref(&'b A), Owned(A) }
@@ -61,15 +64,28 @@ pub trait System: Sized {
     spec fn spec_time(&self) -> RunningTime;
     spec fn spec_runs(&self) -> nat;
     fn run(&mut self, data: Self::SystemData)
-        ensures final(self).spec_runs() == old(self).spec_runs() + 1, final(self).spec_ident() == old(self).spec_ident();
+        ensures final(self).spec_time() == old(self).spec_time(),
+//@if once|tl
+            final(self).spec_runs() == old(self).spec_runs() + 1,
+//@endif
+//@if hooks
+            final(self).spec_ident() == old(self).spec_ident(),
+//@endif
+    ;
     fn running_time(&self) -> (r: RunningTime) ensures r == self.spec_time();
     fn accessor(&self) -> (r: AccessorCow<'_, <Self::SystemData as DynamicSystemData>::Accessor>)
         ensures r.spec_r() == self.spec_ident().reads, r.spec_w() == self.spec_ident().writes;
     fn setup(&mut self, world: &mut World)
+//@if hooks
         ensures final(world).setup_log() == old(world).setup_log() + old(self).spec_ident().setup, final(world).dispose_log() == old(world).dispose_log(),
-            final(self).spec_ident() == old(self).spec_ident(), final(self).spec_runs() == old(self).spec_runs();
+            final(self).spec_ident() == old(self).spec_ident(), final(self).spec_runs() == old(self).spec_runs()
+//@endif
+    ;
     fn dispose(self, world: &mut World)
-        ensures final(world).dispose_log() == old(world).dispose_log() + self.spec_ident().dispose, final(world).setup_log() == old(world).setup_log();
+//@if hooks
+        ensures final(world).dispose_log() == old(world).dispose_log() + self.spec_ident().dispose, final(world).setup_log() == old(world).setup_log()
+//@endif
+    ;
 }
 // RunNow: what a boxed system offers to the dispatcher.  How often an implementor "ran" is stated by each impl
 // (a strengthened postcondition); the trait-level contract fixes identity and the hook logs.
